@@ -459,6 +459,21 @@ func runC13(c c13Case, rec *ev.Recorder) *Failure {
 				if k.HasOracle(ctx, oracleAcc) || k.HasOracleAddrByBridgerAddr(ctx, rec0.GetBridger()) || k.HasOracleAddrByExternalAddr(ctx, rec0.ExternalAddress) {
 					return failf("C13/records-left-after-withdraw", "%s: oracle records remain after the withdrawal", desc)
 				}
+				// the records are gone, so nothing may be left in the key-less delegate account's name
+				da := rec0.GetDelegateAddress(ch)
+				dels, _ := f.App.StakingKeeper.GetDelegatorDelegations(ctx, da, 10)
+				ubds, _ := f.App.StakingKeeper.GetUnbondingDelegations(ctx, da, 10)
+				stillDelegated := sdkmath.ZeroInt() // share dust below one base unit (after a validator slash) is not counted
+				for _, d := range dels {
+					if va, err := sdk.ValAddressFromBech32(d.ValidatorAddress); err == nil {
+						if v, err := f.App.StakingKeeper.GetValidator(ctx, va); err == nil {
+							stillDelegated = stillDelegated.Add(v.TokensFromShares(d.Shares).TruncateInt())
+						}
+					}
+				}
+				if left := f.App.BankKeeper.GetBalance(ctx, da, fxtypes.DefaultDenom).Amount; stillDelegated.GT(sdkmath.NewInt(1000)) || len(ubds) > 0 || left.IsPositive() {
+					return failf("C13/stake-left-behind-after-withdraw", "%s: oracle %d withdrew (%s paid out) and its records were deleted, but its delegate account still has %s delegated, %d unbonding entries and a balance of %s: that stake can never be recovered", desc, o, got, stillDelegated, len(ubds), left)
+				}
 				m.withdrawn[o] = true
 				delete(m.bonded, o)
 				delete(m.removedAt, o)
